@@ -7,6 +7,7 @@ import Toq.Proofs.RandPgm
 import Toq.Proofs.DiscrimArgs
 import Toq.Proofs.DiscrimTwo
 import Toq.Proofs.DiscrimGram
+import Toq.Proofs.DiscrimCall
 /-!
 # C10 — quantum state discrimination: weak duality and soundness of the certificate checkers
 
@@ -1437,5 +1438,115 @@ optimum `1` of mutually orthogonal states, `minErr_orthogonal_eq_one`). -/
 theorem sd_dist_test_true_of_near_one (v : Rat) (hv : |v - 1| ≤ 1 / 100000) : sdDistTest v = true := by
   rw [sd_dist_test_iff]
   linarith
+
+/-! ## States with zero (or negligible) prior -/
+
+/-- **States outside an orthogonal part cannot hurt.**  If the states singled out by `S` are mutually orthogonal, some
+measurement identifies every one of them with certainty, so its success probability is at least the prior mass
+`Σ_{i ∈ S} p_i tr ρ_i` of that part — whatever the remaining states are (they may overlap everything). -/
+theorem minErr_ge_orthogonal_part (ρ : Fin k → Matrix (Fin d) (Fin d) ℂ) (p : Fin k → ℝ)
+    (S : Fin k → Prop) [DecidablePred S] (j0 : Fin k)
+    (hρ : ∀ i, (ρ i).PosSemidef) (hp : ∀ i, 0 ≤ p i)
+    (hO : ∀ i j, i ≠ j → S i → S j → ρ i * ρ j = 0) :
+    ∃ M : Fin k → Matrix (Fin d) (Fin d) ℂ, IsPOVM M ∧
+      (∑ i, if S i then p i * (ρ i).trace.re else 0) ≤ successProb ρ p M := by
+  let ρ' : Fin k → Matrix (Fin d) (Fin d) ℂ := fun i => if S i then ρ i else 0
+  have hH' : ∀ i, (ρ' i).IsHermitian := by
+    intro i
+    by_cases h : S i
+    · simp only [ρ', h, if_true]; exact (hρ i).isHermitian
+    · simp only [ρ', h, if_false]; exact Matrix.isHermitian_zero
+  have hO' : ∀ i j, i ≠ j → ρ' i * ρ' j = 0 := by
+    intro i j hij
+    by_cases hi : S i
+    · by_cases hj : S j
+      · simp only [ρ', hi, hj, if_true]; exact hO i j hij hi hj
+      · simp [ρ', hj]
+    · simp [ρ', hi]
+  obtain ⟨M, hM, -, hv⟩ := minErr_orthogonal_attained ρ' p j0 hH' hO'
+  refine ⟨M, hM, ?_⟩
+  have h1 : (∑ i, if S i then p i * (ρ i).trace.re else 0) = successProb ρ' p M := by
+    rw [hv]
+    refine Finset.sum_congr rfl fun i _ => ?_
+    by_cases h : S i <;> simp [ρ', h]
+  rw [h1]
+  unfold successProb
+  refine Finset.sum_le_sum fun i _ => ?_
+  by_cases h : S i
+  · simp [ρ', h]
+  · simp only [ρ', h, if_false, Matrix.zero_mul, Matrix.trace_zero, Complex.zero_re, mul_zero]
+    exact mul_nonneg (hp i) (psd_trace_mul_nonneg (hρ i) (hM.1 i))
+
+/-- **Only the states that can occur matter: value exactly 1.**  For density operators and a probability vector such that
+the states with NON-ZERO prior are mutually orthogonal, the optimum is exactly `1` — a listed state with prior `0` may be
+non-orthogonal to all the others (`[|0⟩, |1⟩, |+⟩]` with prior `(1/2, 1/2, 0)`); `is_distinguishable(states, probs)` has to
+answer `True` there (`sd_dist_test_true_of_near_one`), although the same states with the uniform prior are not
+perfectly distinguishable. -/
+theorem minErr_support_orthogonal_eq_one (ρ : Fin k → Matrix (Fin d) (Fin d) ℂ) (p : Fin k → ℝ)
+    (hρ : ∀ i, (ρ i).PosSemidef) (htr : ∀ i, (ρ i).trace = 1) (hp : ∀ i, 0 ≤ p i)
+    (hsum : ∑ i, p i = 1) (hO : ∀ i j, i ≠ j → p i ≠ 0 → p j ≠ 0 → ρ i * ρ j = 0) :
+    IsGreatest (minErrValues ρ p) 1 := by
+  constructor
+  · have hk : 0 < k := by
+      rcases Nat.eq_zero_or_pos k with h | h
+      · subst h; simp at hsum
+      · exact h
+    obtain ⟨M, hM, hv⟩ := minErr_ge_orthogonal_part ρ p (fun i => p i ≠ 0) ⟨0, hk⟩ hρ hp hO
+    refine ⟨M, hM, le_antisymm (minErr_le_one ρ p M hρ htr hp hsum hM) ?_⟩
+    refine le_trans (le_of_eq ?_) hv
+    rw [← hsum]
+    refine Finset.sum_congr rfl fun i _ => ?_
+    by_cases h : p i = 0 <;> simp [h, htr]
+  · rintro v ⟨M, hM, rfl⟩
+    exact minErr_le_one ρ p M hρ htr hp hsum hM
+
+/-! ## Call forms: options by position, by keyword, mixed (`Toq.Model.DiscrimCall`) -/
+
+/-- **Positional options in the documented order.**  `state_distinguishability(vectors, probs, s, v, p)` binds
+`strategy = s`, `solver = v`, `primal_dual = p`; shorter positional calls leave the remaining options at their defaults
+(`"min_error"`, `"cvxopt"`, `"dual"`). -/
+theorem sd_bind_documented_order (s v p : String) :
+    sdBind [s, v, p] [] = some ⟨s, v, p⟩ ∧ sdBind [s, v] [] = some ⟨s, v, "dual"⟩ ∧
+      sdBind [s] [] = some ⟨s, "cvxopt", "dual"⟩ ∧ sdBind [] [] = some ⟨"min_error", "cvxopt", "dual"⟩ := by
+  refine ⟨sdBind_three s v p [] ?_ ?_ ?_, ?_, ?_, ?_⟩
+  · intro e he; cases he
+  · intro e he; cases he
+  · intro e he; cases he
+  · rw [sdBind_two s v [] (fun e he => by cases he) (fun e he => by cases he)]; rfl
+  · rw [sdBind_one s [] (fun e he => by cases he)]; rfl
+  · rw [sdBind_nil]; rfl
+
+/-- **A positional call is the keyword call.**  For every well-formed call (at most three positional options, none of them
+repeated by keyword) the options bound are those of the call that passes the positional values under the keywords
+`strategy`, `solver`, `primal_dual` (in this order) instead. -/
+theorem sd_bind_positional_eq_keyword (pos : List String) (kw : List (String × String)) (hl : pos.length ≤ 3)
+    (hk : ∀ n ∈ sdOptNames.take pos.length, ∀ e ∈ kw, e.1 ≠ n) :
+    sdBind pos kw = sdBind [] (sdOptNames.zip pos ++ kw) :=
+  sdBind_pos_eq_kw pos kw hl hk
+
+/-- … hence both call forms reach the same program, prior, dimension and solver (or the same `ValueError`). -/
+theorem sd_front_call_positional_eq_keyword (shapes : List SdShape) (probs : Option (List Rat)) (pos : List String)
+    (kw : List (String × String)) (hl : pos.length ≤ 3)
+    (hk : ∀ n ∈ sdOptNames.take pos.length, ∀ e ∈ kw, e.1 ≠ n) :
+    sdFrontCall shapes probs pos kw = sdFrontCall shapes probs [] (sdOptNames.zip pos ++ kw) := by
+  unfold sdFrontCall
+  rw [sdBind_pos_eq_kw pos kw hl hk]
+
+/-- The binding fails (`TypeError`) exactly when more than three options are given by position or an option is given
+both by position and by keyword. -/
+theorem sd_bind_type_error_iff (pos : List String) (kw : List (String × String)) :
+    sdBind pos kw = none ↔ 3 < pos.length ∨ ∃ n ∈ sdOptNames.take pos.length, ∃ e ∈ kw, e.1 = n :=
+  sdBind_eq_none_iff pos kw
+
+/-- The four programs are reached by the documented positional calls: `(…, "unambiguous")` is the Gram-form dual,
+`(…, "unambiguous", "cvxopt", "primal")` the Gram-form primal, `(…, "min_error", "cvxopt", "primal")` the measurement
+program. -/
+theorem sd_call_dispatch_positional :
+    (sdBind ["unambiguous"] []).map (fun o => sdDispatch o.strategy o.primalDual) = some .uaDual ∧
+      (sdBind ["unambiguous", "cvxopt", "primal"] []).map (fun o => sdDispatch o.strategy o.primalDual) = some .uaPrimal ∧
+      (sdBind ["min_error", "cvxopt", "primal"] []).map (fun o => sdDispatch o.strategy o.primalDual) = some .mePrimal ∧
+      (sdBind ["min_error"] [("primal_dual", "primal")]).map (fun o => sdDispatch o.strategy o.primalDual) = some .mePrimal ∧
+      (sdBind [] []).map (fun o => sdDispatch o.strategy o.primalDual) = some .meDual := by
+  decide
 
 end Toq.C10
